@@ -248,6 +248,12 @@ func (s *SCION) DecodeFromBytes(data []byte, df gopacket.DecodeFeedback) error {
 	if err != nil {
 		return err
 	}
+	if s.Path.Len() != pathLen {
+		// The path must fill the header exactly: surplus bytes would silently be dropped when the
+		// header is serialized again (with HdrLen still counting them).
+		return serrors.New("path length does not match header length",
+			"path_len", s.Path.Len(), "expected", pathLen)
+	}
 	s.Contents = data[:hdrBytes]
 	s.Payload = data[hdrBytes:]
 
